@@ -169,7 +169,7 @@ class SphereBoundary(BoundaryDomain):
         # Use Fibonacci-Sphere for radius = 1, and then scale this sphere
         phi = np.pi * (3.0 - np.sqrt(5.0))  # golden angle in radians
         index = torch.arange(0, n, device=device)
-        y = 1 - index / (n - 1) * 2  # y goes from 1 to -1
+        y = 1 - index / max(n - 1, 1) * 2  # y goes from 1 to -1
         current_radius = torch.sqrt(1 - y**2)
         theta = phi * index
         x = current_radius * torch.cos(theta)
